@@ -225,6 +225,11 @@ func (o jsonObject) patch(
 	if len(pathAhead) == 0 {
 		newValue := singleValue(newValues)
 		if strategy == mergePatchStrategy {
+			if o2, ok := newValue.(jsonObject); ok && len(o2) == 0 {
+				// Merging an empty object into an object
+				// changes nothing (RFC 7386).
+				return o, nil
+			}
 			return newValue, nil
 		}
 		oldValue := singleValue(oldValues)
